@@ -119,7 +119,7 @@ def oracle_job(job):
                     # transform_string sets keepTabs for good: use a fresh build so every mode sees the same object state
                     corr_parse.set_mode(pp, mode)
                     try:
-                        o = common.with_alarm(corr_parse.CASE_TIMEOUT, full_outcome, pp, root, entry, s, opts, mutate)
+                        o = common.with_alarm_retry(corr_parse.CASE_TIMEOUT, full_outcome, pp, root, entry, s, opts, mutate)
                     except common.CaseTimeout:
                         o = ["hang"]
                     finally:
@@ -228,7 +228,7 @@ def stale_job(job):
                     s2 = "".join(list(s))          # an equal, not identical, string
                     out.append(full_outcome(pp, root, job["entry"], s2, (100, True, False)))
                     return out
-                o = common.with_alarm(corr_parse.CASE_TIMEOUT * 2, hist)
+                o = common.with_alarm_retry(corr_parse.CASE_TIMEOUT * 2, hist)
             except common.CaseTimeout:
                 o = ["hang"]
             except Exception as ex:  # noqa
